@@ -645,6 +645,7 @@ func (g *gen) DecodeSource(props []string, msgs []*Message, h2 bool, fieldFilter
 	if g.pick > 2 {
 		g.pick = 2
 	}
+	g.propTag = props[0]
 	g.mapN, g.listN = 1, 1 // pre-state containers: the step is from an arbitrary pre-state, one element suffices to expose concat/merge
 	g.header()
 	g.driversOnce()
@@ -866,6 +867,7 @@ func (g *gen) totalMessage(m *Message, anyN int) {
 func (g *gen) TotalSource(msgs []*Message, fieldFilter func(m *Message, f *Field) bool, anyN int) string {
 	g.lightAny = true
 	g.pick = 1
+	g.propTag = "C06"
 	g.mapN, g.listN = 1, 1 // pre-state containers: the step is from an arbitrary pre-state, one element suffices to expose concat/merge
 	g.header()
 	g.driversOnce()
